@@ -514,12 +514,13 @@ pub fn execute(scn: &Scn, property: &str) -> RunOutcome {
                     // band are those eased by the discontinuous staircase, whose value one
                     // rounding before the end legitimately is the previous step.
                     // (likewise a keyframe a hair away from the terminal position: a near-vertical
-                    // ramp right before the end instant); tolerance: oracle::BAND_ULPS
-                    let staircase = spec.states[cur].as_ref().map(oracle::steep_end).unwrap_or(false);
+                    // ramp right before the end instant); tolerance: oracle::band_tolerance
+                    let band_tol = spec.states[cur].as_ref().and_then(oracle::band_tolerance);
+                    let staircase = band_tol.is_none();
                     let entered_with = model.entry[model.cur].clone().unwrap_or_else(|| prev.values.clone());
                     let within_rounding = |m: &MergedSpec, a: &Vals, b: &Vals, extra: &Vals| -> Option<&'static str> {
                         (0..4)
-                            .find(|&prop| !oracle::close_within_band(m, prop, oracle::get_prop(a, prop), oracle::get_prop(b, prop), oracle::get_prop(extra, prop)))
+                            .find(|&prop| !oracle::close_within_band(m, prop, oracle::get_prop(a, prop), oracle::get_prop(b, prop), oracle::get_prop(extra, prop), band_tol.unwrap_or(0.0)))
                             .map(|prop| PROP_NAMES[prop])
                     };
                     if let Some(rest) = &rest_values {
